@@ -61,11 +61,15 @@ theorem exAffine_drain (s : St (Ext K)) (hs : s.queue = (exAffine : Model (Ext K
 
 
 /-- the compiled model exists … -/
-theorem exAffine_ok : ∃ lm, linearizeWith (exAffine : Model (Ext K)) [] (exAffine : Model (Ext K)).domain = .ok lm := by
-  let s0 : St (Ext K) := { queue := (exAffine : Model (Ext K)).constraints, domain := (exAffine : Model (Ext K)).domain, bounds := [] }
+theorem exAffine_ok_of (b : BoundsMap (Ext K)) (d : List (DomVar (Ext K))) :
+    ∃ lm, linearizeWith (exAffine : Model (Ext K)) b d = .ok lm := by
+  let s0 : St (Ext K) := { queue := (exAffine : Model (Ext K)).constraints, domain := d, bounds := b }
   refine ⟨_, (linearizeWith_ok_iff _ _ _ _).mpr
     ⟨.var "x", s0, Ctx.fromVar "x" Arith.one, s0, _, exAffine_sf "x" _, ?_, exAffine_drain s0 rfl, rfl⟩⟩
   simp [linExp, pure_ok]
+
+theorem exAffine_ok : ∃ lm, linearizeWith (exAffine : Model (Ext K)) [] (exAffine : Model (Ext K)).domain = .ok lm :=
+  exAffine_ok_of _ _
 
 /-- … and the model satisfies every hypothesis of `c01_affine` / `c02_affine`. -/
 theorem exAffine_hyps : AffineModel (exAffine : Model (Ext K)) (exAffine : Model (Ext K)).domain ∧
